@@ -172,6 +172,8 @@ public:
   std::string out;
   int cp = 0;
   int layersAdded = 0, newlinesAdded = 0, multibyteTokens = 0;
+  struct IdTok { size_t byte; size_t len; TID id; };
+  std::vector<IdTok> idents;  // every identifier token emitted, with its byte offset (for the renaming checks)
   explicit Printer(PrintOpts o) : opt(o) {}
 
   void print(Expr& e) { node(e, false, false); }
@@ -255,8 +257,12 @@ private:
     int start = -1;
     auto first = [&](int at) { if (start < 0) start = at; };
     switch (e.id) {
-      case TID::ID_LOCAL: case TID::ID_GLOBAL: case TID::ID_FUNCTION: case TID::ID_PREDICATE: case TID::ID_RADICAL:
-        first(tok(identText(e))); break;
+      case TID::ID_LOCAL: case TID::ID_GLOBAL: case TID::ID_FUNCTION: case TID::ID_PREDICATE: case TID::ID_RADICAL: {
+        const std::string t = identText(e);
+        first(tok(t));
+        idents.push_back({out.size() - t.size(), t.size(), e.id});
+        break;
+      }
       case TID::LIT_INTEGER: first(tok(std::to_string(e.num))); break;
       case TID::LIT_INTSET: case TID::LIT_EMPTYSET: first(tok(e.id)); break;
 
